@@ -10,7 +10,7 @@ Require Import Arith Lia List Bool ZArith QArith Qcanon.
 From TK Require Import Mat_Sums Mat_Core Mat_Qc Spectral_KyFan Mat_EigSelect EigSelect Mat_EigSelect_Tie
                        Lap_Model Lap_Spec Lap_Exec Lap_Proof_Lap Lap_Proof_Embed Lap_Proof_Dm
                        Lap_Proof_Total Lap_Proof_Complete Lap_Proof_Order Lap_Proof_DmOrder Lap_Proof_Exec
-                       Lap_Proof_Method Lap_Proof_KyFan Lap_Proof_KyFanQc.
+                       Lap_Proof_Method Lap_Proof_KyFan Lap_Proof_KyFanQc Lap_Proof_AbsEps.
 Import ListNotations.
 Local Open Scope list_scope.
 Local Open Scope nat_scope.
@@ -884,3 +884,46 @@ Proof.
   { intros i Hi. destruct i as [|[|[|[|i]]]]; try lia; apply Qc_is_canon; vm_compute; reflexivity. }
   vm_compute. reflexivity.
 Qed.
+
+(* 28. WAVE 3 — the clause "the target_dimension smallest NON-ZERO eigenvalues" against an ABSOLUTE null-space
+       threshold (regression variant le_embedding_abs_eps of Lap_Model.v = seeded change C09_3: the dense generalised
+       front-end keeps skipping while eigenvalues[skip] < eps).
+       (a) every scalar type, every comparison ltb, every N, d, V, lam, eps: when the eigenvalue at offset 1 is NOT
+           below eps the variant returns exactly the shipped selection — the two can differ ONLY on pencils with a
+           non-zero eigenvalue below eps (weakly coupled clusters; this is the input class the check generates and
+           judges by exact eigenvalue ranks);
+       (b) refuted on such a pencil: weighted 4-cycle with bridging weights 10^-12 (connected, positive weights,
+           contract and ascending order hold: ALL hypotheses of Lap_smallest_nonzero_Qc_partial), lam = (0, 10^-12,
+           2 - 10^-12, 2), eps = 10^-9, d = 1: the variant returns the column of lam_2 although 0 < lam_1 < lam_2,
+           and its output violates le_spec for the d smallest non-zero eigenvalues; the shipped selection returns the
+           column of lam_1 (for which Lap_smallest_nonzero_Qc_partial gives le_spec). *)
+Theorem Lap_abs_eps_skip_agrees :
+  forall (F : Type) (ltb : F -> F -> bool) (N d : nat) (V : mat F) (lam : vec F) (eps : F),
+    d + 1 <= N -> ltb (lam 1) eps = false ->
+    exists Y Y', le_embedding_abs_eps ltb N d V lam eps = Some Y /\ le_embedding N d V = Some Y' /\
+                 forall r c, Y r c = Y' r c.
+Proof. exact (@le_abs_eps_agrees). Qed.
+Print Assumptions Lap_abs_eps_skip_agrees.
+
+Example Lap_abs_eps_skip_agrees_nonvacuous :
+  1 + 1 <= 4 /\ qc_ltb (c4_lam 1) wk_eps = false /\ (forall x y : Qc, qc_ltb x y = true <-> (x < y)%Qc).
+Proof. split; [lia|]. split; [vm_compute; reflexivity|]. exact qc_ltb_lt. Qed.
+
+Theorem Lap_abs_eps_skip_refuted :
+  exists (heat : nat -> nat -> Qc) (n : nat) (nbrs : list (list nat)) (k d : nat) (Dm V : mat Qc) (lam : vec Qc)
+         (eps : Qc) (Y Y' : mat Qc),
+    d + 1 <= n /\
+    (forall i q, i < n -> q < k -> nb_at nbrs i q < n) /\
+    (forall i q, i < n -> q < k -> (0 < heat i (nb_at nbrs i q))%Qc) /\
+    lconnected n nbrs k /\
+    msym n Dm /\
+    gen_contract n (matL heat k nbrs n) Dm V lam /\
+    (forall a b, a <= b -> b < n -> (lam a <= lam b)%Qc) /\
+    (0 < eps)%Qc /\
+    le_embedding_abs_eps qc_ltb n d V lam eps = Some Y /\
+    le_embedding n d V = Some Y' /\
+    (forall r, Y r 0 = V r 2) /\ (forall r, Y' r 0 = V r 1) /\
+    (0 < lam 1%nat)%Qc /\ (lam 1%nat < lam 2%nat)%Qc /\
+    ~ le_spec n d (matL heat k nbrs n) Dm Y (fun c => lam (1 + c)).
+Proof. exact le_abs_eps_refuted. Qed.
+Print Assumptions Lap_abs_eps_skip_refuted.
